@@ -7,7 +7,13 @@ Ops == {"read", "write", "writer", "ping"}
 Ok(op) == [op |-> op, when |-> "afterSuccess"]
 Blocked == { [op |-> "read", when |-> "whileBlocked"], [op |-> "read", when |-> "midMessage"],
              [op |-> "write", when |-> "whileBlocked"], [op |-> "writer", when |-> "whileBlocked"],
-             [op |-> "write", when |-> "lockWait"], [op |-> "ping", when |-> "pongWait"] }
+             [op |-> "write", when |-> "lockWait"], [op |-> "ping", when |-> "pongWait"],
+             \* one context shared by a read and a write that are in flight together: the other call completes first,
+             \* then the context is cancelled while this one is still blocked
+             [op |-> "read", when |-> "sharedCtxWriteDone"], [op |-> "write", when |-> "sharedCtxReadDone"],
+             \* the same with the other call entering its blocking section FIRST (it is held up, the call under test then
+             \* enters, the other call is released and completes)
+             [op |-> "read", when |-> "sharedCtxWriteFirst"], [op |-> "write", when |-> "sharedCtxReadFirst"] }
 OkSeqs(n) == UNION { [1..k -> {Ok(o) : o \in Ops}] : k \in 0..n }
 (* the outcome the property demands *)
 Outcome(p) == IF p # <<>> /\ p[Len(p)].when # "afterSuccess"
